@@ -10,34 +10,34 @@ open Model Model.VecWriter
 
 
 theorem tie_C14_methods :
-    Generated.Trans.writerMethods = ["ChainBuffer", "ChainWrite", "Flush", "Reset", "cutBuffer", "reset"] := by decide
+    Generated.Trans.Writer.writerMethods = ["ChainBuffer", "ChainWrite", "Flush", "Reset", "cutBuffer", "reset"] := by decide
 
 /-- `w.buf.Reset()` truncates and keeps the array: `len := 0` in the model -/
-theorem tie_C14_buffer_reset : Generated.Trans.bufferResetBody = ["b.Buf = b.Buf[:0]"] := by decide
+theorem tie_C14_buffer_reset : Generated.Trans.Writer.bufferResetBody = ["b.Buf = b.Buf[:0]"] := by decide
 
 /-- the only statement dropped by the translation assigns a field that nothing in the package reads -/
-theorem tie_C14_dropped : Generated.Trans.reset_dropped = ["w.needCut = false"] := by decide
+theorem tie_C14_dropped : Generated.Trans.Writer.reset_dropped = ["w.needCut = false"] := by decide
 
-theorem tie_C14_cutBuffer (w : W) : Generated.Trans.cutBuffer w = cutBuffer w := by
-  unfold Generated.Trans.cutBuffer cutBuffer
+theorem tie_C14_cutBuffer (w : W) : Generated.Trans.Writer.cutBuffer w = cutBuffer w := by
+  unfold Generated.Trans.Writer.cutBuffer cutBuffer
   simp only [stagedLen, beq_iff_eq]
 
-theorem tie_C14_chainWrite (w : W) (slot : Nat) : Generated.Trans.chainWrite w (.ext slot) = chainWrite w slot := by
-  unfold Generated.Trans.chainWrite chainWrite
+theorem tie_C14_chainWrite (w : W) (slot : Nat) : Generated.Trans.Writer.chainWrite w (.ext slot) = chainWrite w slot := by
+  unfold Generated.Trans.Writer.chainWrite chainWrite
   rw [tie_C14_cutBuffer]
 
 theorem tie_C14_chainBuffer (grow : Nat → Nat) (w : W) (bs : Bytes) :
-    Generated.Trans.chainBuffer w (fun w => append grow w bs) = append grow w bs := rfl
+    Generated.Trans.Writer.chainBuffer w (fun w => append grow w bs) = append grow w bs := rfl
 
-theorem tie_C14_reset (w : W) : Generated.Trans.reset w = reset w := by
-  unfold Generated.Trans.reset reset
+theorem tie_C14_reset (w : W) : Generated.Trans.Writer.reset w = reset w := by
+  unfold Generated.Trans.Writer.reset reset
   simp
 
-theorem tie_C14_Reset (w : W) : Generated.Trans.resetPublic w = reset w := by
-  unfold Generated.Trans.resetPublic
+theorem tie_C14_Reset (w : W) : Generated.Trans.Writer.resetPublic w = reset w := by
+  unfold Generated.Trans.Writer.resetPublic
   exact tie_C14_reset w
 
-theorem tie_C14_flush (w : W) (mem : Mem) (sink : Sink) : Generated.Trans.flush w mem sink = flush w mem sink := by
-  unfold Generated.Trans.flush flush
+theorem tie_C14_flush (w : W) (mem : Mem) (sink : Sink) : Generated.Trans.Writer.flush w mem sink = flush w mem sink := by
+  unfold Generated.Trans.Writer.flush flush
   simp only [tie_C14_cutBuffer, tie_C14_reset]
 
